@@ -28,6 +28,8 @@ def run(ctx):
     from .rules_c11 import _Alias
     ctx.guarded('R03d', c04.NEXT, lambda: c04.r04(_Alias(_Alias(ctx, 'R04a', 'R03d'), 'R04b', 'R03d')))
     ctx.guarded('R03d', c04.NEXT, lambda: c04.r04c(_Alias(ctx, 'R04c', 'R03d')))
+    ctx.rule('R03e', 'the size written to the pointer counts every matched chunk of a same-file dedup answer with its own length (= C05-R05d): otherwise the size depends on how the bytes were split across calls')
+    ctx.guarded('R03e', c05.LOCAL, lambda: c05.r05d(_Alias(ctx, 'R05d', 'R03e')))
 
 
 def r03a(ctx):
